@@ -281,6 +281,11 @@ impl<'a> ProgGen<'a> {
                 if self.cfg.abort_task && slots.iter().any(|s| s.1) {
                     opts.push((3, 6));
                 }
+                // ... or a task this one has spawned in the very same poll (it cannot have started yet):
+                // "start a prefetch, find it is not needed, abort it" - usually followed by a join
+                if self.cfg.abort_task && slots.iter().any(|s| !s.1) {
+                    opts.push((2, 16));
+                }
             }
             if self.cfg.bursts && self.bursts_left > 0 {
                 opts.push((1, 14));
@@ -336,6 +341,17 @@ impl<'a> ProgGen<'a> {
                 6 => {
                     let ok: Vec<u32> = slots.iter().filter(|s| s.1).map(|s| s.0).collect();
                     Stmt::AbortTask(ok[self.rng.usize_below(ok.len())])
+                }
+                16 => {
+                    let ok: Vec<u32> = slots.iter().filter(|s| !s.1).map(|s| s.0).collect();
+                    let s = ok[self.rng.usize_below(ok.len())];
+                    if self.rng.chance(2, 3) {
+                        v.push(Stmt::AbortTask(s));
+                        slots.iter_mut().for_each(|s| s.1 = true);
+                        Stmt::Join(s)
+                    } else {
+                        Stmt::AbortTask(s)
+                    }
                 }
                 7 => {
                     let k = self.rng.range(1, 3) as usize;
